@@ -120,11 +120,13 @@ def yield_index(fn, out=None, counts=None):
         kind = "?"
         if isinstance(y.value, ast.Call) and isinstance(y.value.func, ast.Name):
             kind = y.value.func.id
-        if (y.lineno, y.col_offset % 10000) in out:
+        # copies of one source statement made by the load-time normalisation share a position: they are one site;
+        # two different actions at one position (a conditional expression that was split) are two sites
+        if (y.lineno, y.col_offset % 10000, kind) in out:
             continue
         k = counts.get(kind, 0)
         counts[kind] = k + 1
-        out[(y.lineno, y.col_offset % 10000)] = (kind, k)
+        out[(y.lineno, y.col_offset % 10000, kind)] = (kind, k)
     return out
 
 
@@ -865,6 +867,8 @@ class Interp:
         for n in ast.walk(fdef):
             if isinstance(n, ast.Name) and isinstance(n.ctx, ast.Store) and n.id not in ren and n.id not in nonlocal_:
                 ren[n.id] = pre + n.id
+                if n.id in self.partvars and pre + n.id not in self.partvars:
+                    self.partvars = self.partvars + (pre + n.id,)
         sub = Renamer(ren)
         body = [sub.visit(copy.deepcopy(s)) for s in fdef.body]
         for s in body:
@@ -906,6 +910,51 @@ class Interp:
             elif o.kind == "return":
                 out.append(o.state)
         return out
+
+    def resolve_inline(self, node, st):
+        """(fdef, skip_self) if `node` is a call of a nested function the name certainly holds, or of a loop-free
+        non-generator method of the class: callees that are analysed in place"""
+        if not isinstance(node, ast.Call) or self.inline_depth > 2:
+            return None
+        f = node.func
+        if isinstance(f, ast.Name) and f.id in self.fnlocals:
+            tok = st.enum_single(f.id)
+            if tok is not None and tok.startswith("fn:") and tok[3:] in self.closures \
+                    and not is_generator_def(self.closures[tok[3:]]):
+                return self.closures[tok[3:]], False
+        if isinstance(f, ast.Attribute) and isinstance(f.value, ast.Name) and f.value.id == "self" and f.attr in self.methods:
+            m = self.methods[f.attr]
+            has_loop = any(isinstance(n, (ast.For, ast.While, ast.ListComp, ast.GeneratorExp)) for n in ast.walk(m))
+            if not is_generator_def(m) and not has_loop:
+                return m, True
+        return None
+
+    def inline_states(self, fdef, call, st, skip_self=False):
+        """the callee analysed in place, one (state, returned value) per way it returns - no join, so that a
+        helper that pops on one path and not on the other keeps the two apart"""
+        body = self.bind_params(fdef, call, [st], skip_self)
+        self.inline_depth += 1
+        saved = self.outcomes
+        self.outcomes = []
+        rec = self.record
+        try:
+            self.record = True
+            out, brk, cont = self.block(body, [st])
+            outs = list(self.outcomes)
+        finally:
+            self.inline_depth -= 1
+            self.outcomes = saved
+            self.record = rec
+        res = []
+        for o in outs:
+            if o.kind == "raise":
+                if self.record:
+                    self.outcomes.append(o)
+            elif o.kind == "return":
+                res.append((o.state, o.what))
+        for x in out:
+            res.append((x, NONE))
+        return res
 
     def inline(self, fdef, call, st, skip_self=False):
         if self.inline_depth > 3:
@@ -1317,6 +1366,17 @@ class Interp:
             if self.fndefs.get(s.name, 0) > 1 and s.name not in self.partvars:
                 self.partvars = self.partvars + (s.name,)
             return [st], [], []
+        if isinstance(s, (ast.Assign, ast.Expr)) and isinstance(s.value, ast.Call):
+            callee = self.resolve_inline(s.value, st)
+            if callee is not None:
+                outs = []
+                for st2, val in self.inline_states(callee[0], s.value, st, callee[1]):
+                    if isinstance(s, ast.Assign):
+                        for t in s.targets:
+                            self.assign_target(t, val, st2)
+                    if not st2.bottom:
+                        outs.append(st2)
+                return outs, [], []
         if isinstance(s, ast.Assign):
             if len(s.targets) == 1 and isinstance(s.targets[0], ast.Name) \
                     and self.is_container_init(s.value):
@@ -1482,8 +1542,14 @@ class Interp:
         if s.orelse or not isinstance(s.target, ast.Name):
             return None
         it = s.iter
+        rev = False
+        if isinstance(it, ast.Call) and isinstance(it.func, ast.Name) and it.func.id == "reversed" and len(it.args) == 1 \
+                and not it.keywords:
+            it, rev = it.args[0], True
         if not (isinstance(it, ast.Call) and isinstance(it.func, ast.Name) and it.func.id == "range"
                 and 1 <= len(it.args) <= 3 and not it.keywords):
+            return None
+        if rev and len(it.args) == 3:
             return None
         step = 1
         if len(it.args) == 3:
@@ -1502,6 +1568,10 @@ class Interp:
         tag = f"for{s.lineno}_{s.col_offset % 10000}"
         lo = it.args[0] if len(it.args) > 1 else ast.Constant(0)
         hi = it.args[1] if len(it.args) > 1 else it.args[0]
+        if rev:
+            # reversed(range(a, b)) visits b-1, b-2, ..., a: range(b-1, a-1, -1)
+            lo, hi = ast.BinOp(copy.deepcopy(hi), ast.Sub(), ast.Constant(1)), ast.BinOp(copy.deepcopy(lo), ast.Sub(), ast.Constant(1))
+            step = -1
 
         def name(x, ctx):
             return ast.Name(f"${tag}.{x}", ctx)
@@ -1617,6 +1687,9 @@ class Interp:
                         rng = [Lin.const(0), rng[0]]
                 else:
                     self.ev(s.iter, y)
+                    # an iterable without model: whether the body runs at all, and in which order the values come, is
+                    # unknown - what is derived on such paths is not definite
+                    self.note_fuzzy(s, f"a loop over `{ast.unparse(s.iter)[:40]}`, an iterable the analysis has no model of")
                 self.assign_target(s.target, None, y)
                 if rng and all(isinstance(v, Lin) for v in rng):
                     t = Lin.sym(s.target.id)
@@ -1635,10 +1708,11 @@ class Interp:
         call = y.value
         if self.record and st.dead():
             return []        # the path to this action is contradictory: no action, no record
-        kind, ordinal = self.yidx.get((y.lineno, y.col_offset % 10000), ("?", -1))
+        skind = call.func.id if isinstance(call, ast.Call) and isinstance(call.func, ast.Name) else "?"
+        kind, ordinal = self.yidx.get((y.lineno, y.col_offset % 10000, skind), ("?", -1))
         if ordinal < 0:
             # inlined copy of a closure body: locate by position
-            kind = call.func.id if isinstance(call, ast.Call) and isinstance(call.func, ast.Name) else "?"
+            kind = skind
         ACTIONS = ("Forward", "Reverse", "Copy", "Move", "EndForward", "EndReverse")
         if kind not in ACTIONS:
             # the action class is named through a local (`load = Move if ... else Copy; yield load(...)`) or the
